@@ -17,11 +17,29 @@ out = ["# Seeded changes vs checks (tier: quick)", "",
  "given (the reason is in <id>/meta.json and in DESIGN.md section 9). Runs were made in private",
  "copies of /repo and /verif (tools/scratch_env.sh), never in /repo itself.", "",
  "| id | property | detected | exit | violation classes reported (first 3) |", "|---|---|---|---|---|"]
+# custom rows (explained in DESIGN.md section 9)
+custom = {
+ ('C03', 16): "| C03-16 | C03 | yes, after adapting the harness | 2 -> 1 | adds a REQUIRED method to the public trait fri::ProverChannel: the harness' recording channel (like every downstream implementor) stops compiling = HARNESS-ERROR (exit 2); with that method implemented in a scratch copy: C03/adaptive/modified-proof-accepted A1-remainder-plus-vanishing; C04/prover-transcript-order expected reseed(FRI remainder commitment); C05/far-function-accepted-with-a-commitment-made-after-the-queries |",
+}
+for k, v in custom.items():
+    rows[k] = v
+# changes that were not re-run against the harness of this session
+import glob
+for d in sorted(glob.glob('/verif/seeded/C*-*/meta.json')):
+    m = json.load(open(d))
+    mm = re.match(r'(C\d\d)-(\d+)$', m['id'])
+    k = (mm.group(1), int(mm.group(2)))
+    if k not in rows:
+        if m.get('obsolete'):
+            rows[k] = f"| {m['id']} | {m['property']} | n/a (obsolete) | - | {m['obsolete']} |"
+        else:
+            rows[k] = f"| {m['id']} | {m['property']} | (not re-run) | - | detected when it was written or after the strengthening recorded for its round in DESIGN.md section 9; the full table could not be regenerated within this session (one change = up to three rebuilds of the harness) |"
 for k in sorted(rows):
     out.append(rows[k])
 n = len(rows)
-yes = sum(1 for v in rows.values() if '| yes |' in v)
-out += ["", f"{n} changes, {yes} detected, {n-yes} other (obsolete / not applicable rows are explained in their row).", "",
+yes = sum(1 for v in rows.values() if '| yes' in v)
+notrun = sum(1 for v in rows.values() if '(not re-run)' in v)
+out += ["", f"{n} changes, {yes} detected in this session's run, {notrun} not re-run in this session, {n-yes-notrun} other (obsolete rows are explained in their row).", "",
         "Own sensitivity mutants (seeded/own/*.diff) are listed in DESIGN.md."]
 open('/verif/seeded/STATUS.md', 'w').write('\n'.join(out) + '\n')
 print(n, 'rows,', yes, 'detected')
